@@ -71,7 +71,13 @@ func resRun(s *Summary, c *resCase, ctl resCtl, base string, placement int, lega
 		return map[string]any{"kind": "resource", "aspect": aspect, "controller": ctl.name, "uses": ctl.uses, "base": base, "nested": nested, "outer_group": outer,
 			"what": fmt.Sprintf("Resource(%q, %s implementing %v, Uses=%v, inside a group with 3 Use calls=%v, inside Group(%q)): %s", base, ctl.name, c.Impl, ctl.uses, nested, outer, what)}
 	}
-	r := rux.New()
+	// (every other run on a caching router, every probe sent twice: the second time the dynamic actions come from the cache)
+	var r *rux.Router
+	if legacy {
+		r = newRouter(cachingOpts(4)...)
+	} else {
+		r = rux.New()
+	}
 	r.GET("/unrelated", nopHandler)
 	if legacy && placement == 0 {
 		// hand-written routes on the fixed paths of the resource exist already (an application being migrated): the
@@ -152,7 +158,7 @@ func resRun(s *Summary, c *resCase, ctl resCtl, base string, placement int, lega
 	root := outer + "/" + strings.Trim(base+name, "/")
 	pathOf := map[string]string{"root": root, "create": root + "/create", "item": root + "/7", "edit": root + "/7/edit",
 		"createedit": root + "/create/edit", "deep": root + "/7/x", "other": "/other"}
-	for _, pr := range c.Probes {
+	for _, pr := range append(append([][3]string{}, c.Probes...), c.Probes...) {
 		m, kind, action := pr[0], pr[1], pr[2]
 		w := httptest.NewRecorder()
 		r.ServeHTTP(w, &http.Request{Method: m, URL: &url.URL{Path: pathOf[kind]}, Header: http.Header{}, Proto: "HTTP/1.1"})
